@@ -156,3 +156,28 @@ Definition skip_core (k : core) (n : N) : core :=
 Definition skip (s : rx) (n : N) : rx := mkRx (skip_core (r_core s) n) (r_queue s).
 
 Definition rx_reset (s : rx) : rx := rx_init.
+
+(** * [iter_messages] and [flush] *)
+Definition msg_of (e : event) : option message :=
+  match ev_what e with WTransport (TMessage (Ok m)) => Some m | _ => None end.
+
+(** [iter_messages(src).next()] *)
+Fixpoint next_message (fuel : nat) (c : rcfg) (s : rx) (src : list item) : option message * rx * list item :=
+  match fuel with
+  | O => (None, s, src)
+  | S f =>
+    match process c s src with
+    | (Some e, s', rest) =>
+      match msg_of e with
+      | Some m => (Some m, s', rest)
+      | None => next_message f c s' rest
+      end
+    | (None, s', rest) => (None, s', rest)
+    end
+  end.
+
+(** [flush()]: bind [iter_messages] to the zero padding (given here as the items the DSP makes
+    of it), take one message, drop the iterator *)
+Definition flush (fuel : nat) (c : rcfg) (s : rx) (zeros : list item) : option message * rx :=
+  let '(m, s', _) := next_message fuel c s zeros in (m, s').
+
